@@ -67,9 +67,9 @@ EDGE_OF_EVENT["loaded_as_persistent"] = (None, P)
 # (make_transient / make_transient_to_detached docstrings)
 SILENT_EDGES = {(DT, T): "make_transient", (T, DT): "make_transient_to_detached"}
 
-TABLE_OF = dict(Plain="plain", Parent="parent", NNode="nnode")
-PK_OF = dict(Plain="id", Parent="id", NNode="code")
-COLS_OF = dict(Plain=("id", "name"), Parent=("id", "name"), NNode=("code", "val"))
+TABLE_OF = dict(Plain="plain", Parent="parent", NNode="nnode", FalsyB="falsyb", FalsyL="falsyl")
+PK_OF = dict(Plain="id", Parent="id", NNode="code", FalsyB="id", FalsyL="id")
+COLS_OF = dict(Plain=("id", "name"), Parent=("id", "name"), NNode=("code", "val"), FalsyB=("id", "name", "flag"), FalsyL=("id", "name", "flag"))
 CLASS_OF_TABLE = {v: k for k, v in TABLE_OF.items()}
 
 
@@ -482,6 +482,8 @@ class SessRef:
             return
         self.tx.append(Scope(copy_rows(self.tx[-1].rows)))
         self.nsp += 1
+
+    op_begin_nested_nf = op_begin_nested  # R-nested: begin_nested() always flushes, no_autoflush or not
 
     def op_sp_rollback(self, pr):
         assert self.nsp > 0
